@@ -509,7 +509,14 @@ func famIssuerRace(r *Rand) *seqScenario {
 	b.grow(0, r.Intn(3))
 	iss := 10 + r.Intn(5)
 	e1 := b.entry(seqEntrySpec{Kind: "rand", Issuers: []int{iss}})
-	e2 := b.entry(seqEntrySpec{Kind: "rand", Issuers: []int{iss}})
+	var e2 int
+	if r.Chance(50) {
+		// the same entry (same dedup key) submitted through a chain without the new issuer: it is sequenced and
+		// cached while the first submission is still uploading its issuer
+		e2 = b.entry(seqEntrySpec{Kind: "rand", DupOf: e1 + 1})
+	} else {
+		e2 = b.entry(seqEntrySpec{Kind: "rand", Issuers: []int{iss}})
+	}
 	b.cmd(seqCmd{Op: "submit", Inst: 0, Entry: e1})
 	if r.Chance(50) {
 		b.cmd(seqCmd{Op: "step", Inst: 0, Pick: 0}) // the fetch (not found); the upload is now parked
@@ -542,7 +549,7 @@ func genScenarios(o *Opts, r *Rand) []*seqScenario {
 			"C03": {"crash", "fault"},
 			"C04": {"basic", "fault", "crash", "issuerrace"},
 			"C06": {"multi", "startup", "runseq"},
-			"C07": {"dup", "pool"},
+			"C07": {"dup", "pool", "issuerrace"},
 			"C08": {"tamper"},
 			"C17": {"pool", "fault", "runseq"},
 		}[o.Prop]
